@@ -13,6 +13,7 @@ import (
 	"os"
 	"path/filepath"
 	"runtime"
+	"runtime/debug"
 	"sort"
 	"strconv"
 	"strings"
@@ -321,6 +322,45 @@ var scenarios = []scenario{
 			return "contents damaged by failed opens"
 		}
 		return census(dir, 30*time.Millisecond)
+	}},
+	{"reopen-with-other-bit-sizes-releases-everything", func(rng *rand.Rand) string {
+		// re-bucketing opens the old and a new index with file caches of their own: they too must be closed (no finalizer may
+		// hide a leaked descriptor: the collector of the Go runtime is off during the scenario)
+		defer debug.SetGCPercent(debug.SetGCPercent(-1))
+		dir, _ := os.MkdirTemp("", "close")
+		defer os.RemoveAll(dir)
+		s, err := open(dir, time.Hour, time.Hour, 100)
+		if err != nil {
+			return err.Error()
+		}
+		lowUse(s)
+		if err = s.Close(); err != nil {
+			return "Close: " + err.Error()
+		}
+		for _, bits := range []uint8{12, 8, 16, 9} {
+			s, err = open(dir, time.Hour, time.Hour, 100, store.IndexBitSize(bits))
+			if err != nil {
+				return fmt.Sprintf("reopen with %d bits: %v", bits, err)
+			}
+			for _, fd := range fdsInto(dir) {
+				if strings.Contains(fd, "deleted") {
+					s.Close()
+					return fmt.Sprintf("after re-bucketing to %d bits a descriptor of a replaced index file is still open: %s", bits, fd)
+				}
+			}
+			v, ok, _ := s.Get(key(9))
+			if !ok || len(v) != 18 {
+				s.Close()
+				return fmt.Sprintf("contents damaged by re-bucketing to %d bits", bits)
+			}
+			if err = s.Close(); err != nil {
+				return "Close: " + err.Error()
+			}
+			if bad := census(dir, 20*time.Millisecond); bad != "" {
+				return fmt.Sprintf("after re-bucketing to %d bits and Close: %s", bits, bad)
+			}
+		}
+		return ""
 	}},
 	{"close-during-primary-gc-relocation", func(rng *rand.Rand) string {
 		lowUseContents = true
